@@ -229,27 +229,30 @@ func c18HistConfigs(env *mc.Env) []*c18HistCfg {
 	vs := []v{
 		{"hist-nocond", base, 0, 0, false, false, 0, plain, false, 2, 2},
 		{"hist-k1", base, 1, 1, false, true, 0, plain, false, 2, 3},
-		{"hist-k2n1", base, 2, 1, false, false, 0, plain, false, 5, 7},
-		{"hist-k2n1-evictfail", base, 2, 1, true, false, 0, plain, false, 5, 7},
-		{"hist-k2n1-prod", withProd, 2, 1, false, true, 0, prod, false, 5, 7},
-		{"hist-k3n3", base, 3, 3, false, true, 0, plain, false, 5, 7},
-		{"hist-k2n3-numnodes1", base, 2, 3, false, false, 1, plain, true, 5, 7},
-		{"hist-k3n1-prod-evictfail", withProd, 3, 1, true, false, 0, prod, true, 5, 7},
+		{"hist-k2n1", base, 2, 1, false, false, 0, plain, false, 5, 8},
+		{"hist-k2n1-evictfail", base, 2, 1, true, false, 0, plain, false, 5, 8},
+		{"hist-k2n1-prod", withProd, 2, 1, false, true, 0, prod, false, 5, 8},
+		{"hist-k3n3", base, 3, 3, false, true, 0, plain, false, 5, 8},
+		{"hist-k2n3-numnodes1", base, 2, 3, false, false, 1, plain, true, 5, 8},
+		{"hist-k3n1-prod-evictfail", withProd, 3, 1, true, false, 0, prod, true, 5, 8},
 	}
 	var out []*c18HistCfg
 	for _, x := range vs {
 		if x.thorough && !env.Thorough() {
 			continue
 		}
-		hc := &c18HistCfg{name: x.name, cfg: x.cfg, failAll: x.failAll, depth: env.Pick(x.dq, x.dt)}
-		hc.cfg.AnomalyK, hc.cfg.AnomalyN, hc.cfg.NodeFit, hc.cfg.NumNodes = x.k, x.n, x.nodeFit, x.numNodes
-		if env.Thorough() {
-			hc.ops, hc.opNames = c18HistOps(&hc.cfg, 3, x.syms, 0, 0)
-		} else {
-			// quick: the third node only alternates between underused and between-thresholds
-			hc.ops, hc.opNames = c18HistOps(&hc.cfg, 3, x.syms, 1, 2)
+		mk := func(name string, depth, restricted int) {
+			hc := &c18HistCfg{name: name, cfg: x.cfg, failAll: x.failAll, depth: depth}
+			hc.cfg.AnomalyK, hc.cfg.AnomalyN, hc.cfg.NodeFit, hc.cfg.NumNodes = x.k, x.n, x.nodeFit, x.numNodes
+			// restricted: the third node only alternates between underused and between-thresholds
+			hc.ops, hc.opNames = c18HistOps(&hc.cfg, 3, x.syms, restricted, 2)
+			out = append(out, hc)
 		}
-		out = append(out, hc)
+		mk(x.name, env.Pick(x.dq, x.dt), 1)
+		if env.Thorough() && x.k >= 2 {
+			// all three nodes over the full per-node alphabet, shallower
+			mk(x.name+"-full3", 4, 0)
+		}
 	}
 	return out
 }
@@ -258,6 +261,19 @@ func TestVerifC18Hist(t *testing.T) {
 	env := mc.LoadEnv()
 	total := env.Budget
 	cfgs := c18HistConfigs(env)
+	if re := c18OnlyFilter(); re != nil {
+		var sel []*c18HistCfg
+		for _, hc := range cfgs {
+			if re.MatchString(hc.name) {
+				sel = append(sel, hc)
+			}
+		}
+		cfgs = sel
+		if len(cfgs) == 0 {
+			env.Emit(mc.NewResult("C18", "no-part-of-hist-selected", "bfs"))
+			return
+		}
+	}
 	for ci, hc := range cfgs {
 		hc := hc
 		// every configuration gets an equal share of the remaining budget (a slow machine caps every part a little
